@@ -40,8 +40,8 @@ def fs_search(res, tier, rng, exe):
             # members: hostile names, some aimed at the planted links
             names = []
             isunix = rng.random() < 0.5; sep = b"/" if isunix else b"\\"
-            plan = ["dirlink", "dangling-final", "live-final", "dotdot", "abs", "mixed", "longname"][i % 7]       # every plan x every option set
-            force_utf = None; extra_opts = []
+            plan = ["dirlink", "dangling-final", "live-final", "dotdot", "abs", "mixed", "longname", "interactive"][i % 8]       # every plan x every option set
+            force_utf = None; extra_opts = []; stdin_data = None; keep_order = False
             if plan == "dirlink":
                 os.symlink(outside, os.path.join(dest, "assets")); names = [b"assets" + sep + b"victim.txt", b"assets" + sep + b"new.txt", b"assets" + sep + b"sub" + sep + b"v2.txt",
                          b"assets" + sep + sep + b"dbl.txt", b"assets" + sep + b"." + sep + b"dot.txt", b"assets" + sep + sep + sep + b"victim.txt"]
@@ -56,7 +56,7 @@ def fs_search(res, tier, rng, exe):
                 names = [sep + outside.encode()[1:] + sep + b"victim.txt", sep + sep + b"etc" + sep + b"x", b"\xe0\x80\xaf" + outside.encode()[1:] + b"/victim.txt"]
             elif plan == "longname":
                 # a name that fits the cabinet's 255 bytes but not the file system's once converted; links planted under what a shortened name would be
-                if (i // 7) % 2 == 0:
+                if (i // 8) % 2 == 0:
                     names = [b"\xff" * 86]; force_utf = True; conv = b"\xef\xbf\xbd"
                 else:
                     names = [b"\xe9" * 128]; force_utf = False; extra_opts = ["-e", "ISO-8859-1"]; conv = b"\xc3\xa9"
@@ -66,9 +66,18 @@ def fs_search(res, tier, rng, exe):
                     if ln and (ln[-1] & 0xC0) == 0xC0: ln = ln[:-1]
                     try: os.symlink(os.path.join(outside, "victim.txt" if cut % 2 else "created-by-long.txt"), os.path.join(dest.encode(), ln))
                     except OSError: pass
+            elif plan == "interactive":
+                # -i: an existing plain file makes cabextract ask, the answer (All / yes / yes yes) is remembered or repeated; later members are links
+                open(os.path.join(dest, "first.txt"), "w").write("old")
+                os.symlink(os.path.join(outside, "victim.txt"), os.path.join(dest, "second.txt"))
+                os.symlink(os.path.join(outside, "created-by-i.txt"), os.path.join(dest, "third.txt"))
+                os.makedirs(os.path.join(dest, "d")); os.symlink(os.path.join(outside, "sub", "v2.txt"), os.path.join(dest, "d", "fourth.txt"))
+                names = [b"first.txt", b"second.txt", b"third.txt", b"d" + sep + b"fourth.txt"]; keep_order = True
+                extra_opts = ["-i"]; stdin_data = [b"A\n", b"a\n", b"y\ny\ny\ny\n", b"y\nA\n"][(i // 8) % 4]
             else:
                 names = [gen_name(rng) for _ in range(4)]
-            rng.shuffle(names)       # the first member to reach a planted link decides what happens to it
+            if not keep_order: rng.shuffle(names)
+            if False: rng.shuffle(names)       # the first member to reach a planted link decides what happens to it
             names = [nm[:255] for nm in names if nm and b"\0" not in nm][:6]
             utf = rng.random() < 0.4
             if force_utf is not None: utf = force_utf
@@ -77,8 +86,9 @@ def fs_search(res, tier, rng, exe):
             cab = cabfmt.build_single([cabfmt.Folder(("none",), mem)], rng)
             cabp = os.path.join(work, "t.cab"); open(cabp, "wb").write(cab)
             before = snapshot(outside)
-            opts = [[], ["-n"], ["-L"], ["-q"], ["-n", "-L"], ["-L", "-q"]][(i // 7) % 6] + extra_opts
-            r = subprocess.run([exe] + opts + ["-d", dest, cabp], capture_output=True, timeout=30, cwd=work)
+            opts = [[], ["-n"], ["-L"], ["-q"], ["-n", "-L"], ["-L", "-q"]][(i // 8) % 6] + extra_opts
+            if plan == "interactive": opts = [o for o in opts if o != "-n"]
+            r = subprocess.run([exe] + opts + ["-d", dest, cabp], capture_output=True, timeout=30, cwd=work, input=stdin_data if stdin_data is not None else b"")
             after = snapshot(outside)
             res.evaluations += 1; res.nontrivial.add((plan, tuple(names), tuple(opts))); res.count("fs-" + plan)
             if before != after:
